@@ -318,6 +318,15 @@ def snapshot(o):
     return repr(o)
 
 
+def snapshot_unordered(o):
+    """like snapshot, but insensitive to the iteration order of the top-level dict (the brute-force solvers pop and
+    re-insert the () key, which moves it to the end: equal under ==, not a mutation of the model)"""
+    s = snapshot(o)
+    if isinstance(s, tuple) and s and s[0] == 'dict':
+        return ('dict', s[1], sorted(s[2], key=repr), s[3])
+    return s
+
+
 class PurityError(Exception):
     pass
 
